@@ -254,6 +254,31 @@ def run(prog: Program, res: Result) -> None:
                     )
                 else:
                     res.ok("C13.R1", site, what, "guards: " + ", ".join(f"{k} at line {v.line}" for k, v in sorted(have.items())))
+    # (v) what a resolver hands back is the guarded join: never the caller-supplied name itself (or a path made from it without a join)
+    for mod in loader_mods:
+        for fi in mod.functions.values():
+            if fi.name not in resolvers:
+                continue
+            params = set(fi.params()) - {"self", "cls"}
+            derived: set[str] = set(params)
+            joined: set[str] = set()
+            changed = True
+            while changed:
+                changed = False
+                for a in ast.walk(fi.node):
+                    if isinstance(a, ast.Assign) and len(a.targets) == 1 and isinstance(a.targets[0], ast.Name):
+                        tname = a.targets[0].id
+                        is_join = any((isinstance(c, ast.Call) and isinstance(c.func, ast.Attribute) and c.func.attr in JOIN_ATTRS) or (isinstance(c, ast.BinOp) and isinstance(c.op, ast.Div)) for c in ast.walk(a.value))
+                        if is_join and tname not in joined:
+                            joined.add(tname)
+                            changed = True
+                        elif not is_join and (_names(a.value) & derived) and tname not in derived and tname not in joined:
+                            derived.add(tname)
+                            changed = True
+            for r in ast.walk(fi.node):
+                if isinstance(r, ast.Return) and isinstance(r.value, ast.Name) and r.value.id in derived and r.value.id not in joined and prog.enclosing_function(mod, r) is fi:
+                    n_join += 1
+                    res.fail("C13.R1", file=fi.file, line=r.lineno, qualname=fi.qualname, construct=f"{fi.qualname}: returns the caller-supplied path `{r.value.id}` itself", message=f"{fi.qualname} can return `{r.value.id}`, which is made from the caller-supplied name without being joined onto a search root: an absolute name that merely *starts with* a root (`<root>/../secret`) is read as it stands - lexical containment (`is_relative_to`) does not survive `..`", what=f"{fi.qualname}: every returned path is a guarded join onto a root")
     res.floor("C13.R1", "name-onto-root joins", n_join, 2)
 
     # ------------------------------------------------------------------ R2 who-may-read
